@@ -156,6 +156,9 @@ func (r *Run) loadKnown() {
 	}
 }
 
+// NewDetached returns a Run that only serves Rand/Pick/Tier (no evidence, no output).
+func NewDetached(prop string) *Run { return newRun(prop, "exploration") }
+
 // IsKnown tells whether a signature is listed as a known (unrepaired) finding.
 func (r *Run) IsKnown(sig string) bool { _, ok := r.known[sig]; return ok }
 
